@@ -118,7 +118,11 @@ def make_crash_probe_plan(seed: int, catalogue_keys: list[str], groups: dict[str
     probes += [rng.choice(catalogue_keys) for _ in range(rng.randint(0, 2))]
     rng.shuffle(probes)
     first = rng.random() < 0.5 and at_line is not None  # crash on the very first execution (cold state) or on the second
-    main = ([target] if first else [target, target]) + probes + [target]
+    # after the abandoned call: either the caller retries at once, or it first does something else -- operations
+    # from *other* configurations, which share only library-wide state with the abandoned one -- and comes back later
+    retry = rng.random() < 0.5
+    foreign = [rng.choice(catalogue_keys) for _ in range(rng.randint(1, 3))]
+    main = ([target] if first else [target, target]) + ([] if retry else foreign) + probes + (foreign if retry else []) + [target]
     threads = [main]
     if rng.random() < 0.4:  # a bystander whose operations interleave with the abandoned one
         threads.append([rng.choice(neighbours or catalogue_keys) for _ in range(rng.randint(1, 3))])
@@ -132,7 +136,7 @@ def make_crash_probe_plan(seed: int, catalogue_keys: list[str], groups: dict[str
         faults=ambient + ["crash"],
         max_crashes=1,
         note="crash-probe",
-        crash_at={"thread": 0, "index": 0 if first else 1, "fraction": rng.random(), "at_line": at_line},
+        crash_at={"thread": 0, "index": 0 if first else 1, "fraction": rng.random(), "at_line": at_line, "retry": retry},
     )
 
 
@@ -348,7 +352,7 @@ class Simulator:
             return
         self.stats["line_events"] += 1
         c.lines_in_op += 1
-        if c.switch_at_line is not None and c.switch_at_line == f"{code.co_filename[len(self.root):]}:{line}":
+        if c.switch_at_line is not None and c.switch_at_line == f"{code.co_filename[len(self.root):]}:{line}" and not self._inside_staging_trace():
             c.switch_at_line = None
             to = self.callers[self.plan.switch_at["to"]]
             if not to.done:
@@ -374,7 +378,7 @@ class Simulator:
         p_line = self.plan.p_line
         if self.focus_files and len(self.callers) > 1 and code.co_filename[len(self.root):] in self.focus_files:
             p_line = max(p_line, 0.08)  # change-aware: pre-empt more often inside files with uncommitted changes
-        if r < self.plan.p_crash + p_line:
+        if r < self.plan.p_crash + p_line and not self._inside_staging_trace():
             self.yield_point(c, "line", f"{code.co_filename[len(self.root):]}:{line}")
 
     def _natural_line_start(self, code: types.CodeType, line: int) -> bool:
@@ -395,6 +399,22 @@ class Simulator:
         except ValueError:
             return True
         return lasti == firsts.get(line, lasti)
+
+    @staticmethod
+    def _inside_staging_trace() -> bool:
+        """True when the monitored package frame runs inside a JAX staging trace (`trace_to_jaxpr*` / `trace_to_subjaxpr*`: the bodies
+        of scan / cond / while, jit and custom-derivative rules). Such traces are computed under jaxlib caches that
+        make a second thread asking for the *same function* wait for the first one's result; a caller parked in there
+        would dead-lock the baton holder (seen with one rollout function shared by all callers). No caller is
+        parked inside a staging trace; crashes there are fine (the exception unwinds the cache entry)."""
+        f = sys._getframe(3)
+        depth = 0
+        while f is not None and depth < 400:
+            if f.f_code.co_name.startswith(("trace_to_jaxpr", "trace_to_subjaxpr")):  # _nocache, _dynamic, _nounits, ...
+                return True
+            f = f.f_back
+            depth += 1
+        return False
 
     def _start_monitoring(self):
         mon = sys.monitoring
@@ -477,7 +497,9 @@ class Simulator:
                         self.stats["session_leaks"] += 1
                         with self.seams.harness():
                             jax.config.update("jax_enable_x64", self.intended_x64)
-                    if status == "crashed" and attempt == 0 and (c.rng.random() < 0.7 or self.plan.crash_at):
+                    scripted = self.plan.crash_at if (self.plan.crash_at and self.plan.crash_at["thread"] == c.idx and self.plan.crash_at["index"] == i) else None
+                    want_retry = scripted.get("retry", True) if scripted else (c.rng.random() < 0.7)
+                    if status == "crashed" and attempt == 0 and want_retry:
                         attempt += 1  # the caller retries the abandoned operation, as a user would
                         self.stats["retries"] += 1
                         continue
